@@ -558,6 +558,23 @@ pub fn run(tier: &str, seed: u64) -> Report {
   }
   report.count_n("corpus-emitted-modules", corpus_modules);
   report.exhaustive.push(format!("tree checks on the fast-check output of all {} spec packages under tests/specs/graph/fast_check", files.len()));
+  // shape corpus: one declaration form per package, each with executable logic in it; the statement's
+  // clauses on whatever is emitted
+  {
+    let mut emitted = 0u64;
+    for (name, w) in shape_worlds() {
+      let r = run_fast_check(&w, None, false);
+      let replay = json!({"shape": name, "world": w.describe()});
+      report.evaluations += 1;
+      for (u, sl) in &r.slots {
+        if let FcSlot::Module { text, .. } = sl {
+          emitted += 1;
+          logic_oracle(u, text, &mut report, &replay);
+        }
+      }
+    }
+    report.count_n("shape-corpus-emitted-modules", emitted);
+  }
   // the leavable analysis on generated expression trees, against DG/Leave.lean and the statement
   {
     let mut rr = Rng::new(seed ^ 0xC10_1EA);
@@ -565,6 +582,48 @@ pub fn run(tier: &str, seed: u64) -> Report {
   }
   batch.finish(&mut report, "C10");
   report
+}
+
+/// One package per declaration form that carries executable logic (bodies, initialisers, static
+/// blocks, decorators, statements): fully annotated, so each is emitted, and nothing of the logic may
+/// be left.
+pub fn shape_worlds() -> Vec<(String, FcWorld)> {
+  let forms: Vec<(&str, &str)> = vec![
+    ("function with loops and try", "export function f(n: number): number { let s = 0; for (let i = 0; i < n; i++) { try { s += i; } catch { s = 0; } } while (s > 10) s--; return s; }\n"),
+    ("async function and generator", "export async function f(x: string): Promise<string> { await Promise.resolve(); return x + \"!\"; }\nexport function* g(n: number): Generator<number, void, unknown> { for (let i = 0; i < n; i++) yield i; }\nexport async function* h(): AsyncGenerator<number> { yield 1; }\n"),
+    ("arrow and function expression constants", "export const a = (x: number): number => { console.log(x); return x * 2; };\nexport const b = function (x: string): string { return x.trim(); };\nexport const c = async (x: number): Promise<void> => { await fetch(\"\" + x); };\n"),
+    ("class with constructor, super call and methods", "class Base { constructor(public n: number) {} }\nexport class A extends Base { v: string; constructor(n: number, v: string) { super(n + 1); this.v = v.trim(); console.log(n); } m(x: number): number { if (x > 0) { return x; } return -x; } static s(): void { A.count++; } static count: number = 0; }\n"),
+    ("getters and setters with bodies", "export class A { #v = 1; get v(): number { return this.#v * 2; } set v(x: number) { this.#v = x / 2; } static get z(): string { return [1, 2].join(\",\"); } }\n"),
+    ("static block and private members", "export class A { static #count = 0; static { A.#count = compute(); } private p: number = compute(); private m(): void { console.log(1); } #q(): number { return 1; } pub(): number { return this.#q() + this.p; } }\nfunction compute(): number { return 1; }\n"),
+    ("decorated class", "function dec(t: unknown, c: unknown): void {}\n@dec export class A { @dec m(): void { console.log(1); } @dec accessor v: number = 1; }\n"),
+    ("parameter properties and defaults", "export class A { constructor(public a: number = 1, protected readonly b: string = \"x\", private c: boolean = compute() > 0) { console.log(a); } }\nfunction compute(): number { return 1; }\n"),
+    ("namespace with functions and nested namespace", "export namespace N { export function f(x: number): number { return x + helper(); } function helper(): number { return 1; } export namespace M { export const v: number = 1; export class K { m(): void { f(1); } } } }\n"),
+    ("enum with computed members", "export enum E { A = 1, B = A * 2, C = \"x\".length }\nexport const enum F { X = 1 << 2, Y = X | 1 }\n"),
+    ("default exported function", "export default function main(argv: string[]): number { for (const a of argv) { console.log(a); } return argv.length; }\n"),
+    ("default exported class", "export default class { v: number = 1; m(): string { return String(this.v); } }\n"),
+    ("default exported annotated expression", "const table: Record<string, number> = { a: compute() };\nexport default table;\nfunction compute(): number { return 1; }\n"),
+    ("top-level statements besides declarations", "export const v: number = 1;\nconsole.log(v);\nif (v > 0) { console.log(\"pos\"); }\nfor (const x of [1, 2]) { console.log(x); }\nlabel: { break label; }\n"),
+    ("object and array initialisers with annotation", "export const o: { a: number; f(): void } = { a: compute(), f() { console.log(1); } };\nexport const l: number[] = [compute(), 2].map((x) => x + 1);\nfunction compute(): number { return 1; }\n"),
+    ("overloads with implementation body", "export function f(x: number): number;\nexport function f(x: string): string;\nexport function f(x: number | string): number | string { if (typeof x === \"number\") { return x + 1; } return x.trim(); }\n"),
+    ("method overloads and optional methods", "export class A { m(x: number): number; m(x: string): string; m(x: number | string): number | string { return x; } opt?(): void; }\n"),
+    ("abstract class with concrete members", "export abstract class A { abstract a(): void; b(): number { return compute(); } protected c: number = compute(); }\nfunction compute(): number { return 1; }\n"),
+    ("symbol-keyed and computed methods", "export class A { [Symbol.iterator](): Iterator<number> { let i = 0; return { next: () => ({ done: i > 2, value: i++ }) }; } [\"quoted\"](): void { console.log(1); } }\n"),
+    ("exported variables of several kinds", "export let a: number = compute();\nexport var b: string = String(compute());\nexport const c: readonly number[] = Object.freeze([compute()]);\nfunction compute(): number { return 1; }\n"),
+    ("class expression constant with annotation", "interface K { new (): { m(): void } }\nexport const A: K = class { m(): void { console.log(1); } };\n"),
+    ("declare and ambient forms next to code", "export declare function d(x: number): void;\nexport declare const dc: number;\nexport function f(): void { d(dc); }\n"),
+  ];
+  forms
+    .into_iter()
+    .map(|(name, text)| {
+      (
+        name.to_string(),
+        FcWorld {
+          main: "import * as a from \"jsr:@s/a@1\";\n".into(),
+          pkgs: vec![FcPackage { name: "@s/a".into(), version: "1.0.0".into(), exports: vec![(".".into(), "./mod.ts".into())], files: vec![("/mod.ts".into(), text.to_string())] }],
+        },
+      )
+    })
+    .collect()
 }
 
 fn feature_class(tok: &str) -> String {
